@@ -456,3 +456,84 @@ C11.extract = c11_extract
 C11.search = c11_search
 C11.lean_modules = ["NitroVerif.Props.C11"]
 C11.extra_trusted = ["translator vlib/extract.py (clang 14 JSON AST of toggle::parse_env_value -> Generated/ToggleVocab.lean)"]
+
+
+def dcase(ops):
+    return "\t".join(["opt", "C13", "D", ";".join(ops)])
+
+
+def d_alphabet():
+    a = []
+    for k in "omt":
+        for g in (0, 1):
+            for n in ("a", "b"):
+                a.append("%s:%d:%s" % (k, g, hexs(n)))
+    for i in (0, 1):
+        for s in ("x", "y", "", "xy"):
+            a.append("sh:%d:%s" % (i, hexs(s)))
+        for e in ("NVD_E1", "NVD_E2"):
+            a.append("en:%d:%s" % (i, hexs(e)))
+    a += ["mv:0:%s" % hexs("M"), "mv:0:%s" % hexs(""), "move", "grp:1"]
+    return a
+
+
+PROBES = [[], ["-x"], ["--a"], ["--a", "v"], ["-xy"], ["--b=w", "-y"], ["-xx"], ["--a", "v", "--a", "w"]]
+
+
+def gen_c13(tier, rng):
+    big = tier == "thorough"
+    out = []
+    A = d_alphabet()
+    k = 0
+    setups = [[], ["o:0:" + hexs("a")], ["o:0:" + hexs("a"), "t:1:" + hexs("b")]]
+    for su in setups:
+        for d in ((1, 2, 3) if len(su) == 2 else (1, 2)):
+            for seq in itertools.product(A, repeat=d):
+                k += 1
+                out.append(dcase(su + list(seq) + ["probe:" + hexl(PROBES[k % len(PROBES)])]))
+    if big:
+        for seq in itertools.product(A[::2], repeat=4):
+            k += 1
+            out.append(dcase(list(seq) + ["probe:" + hexl(PROBES[k % len(PROBES)])]))
+    names = ["a", "b", "no-a", "c"]
+    for _ in range(20000 if big else 3000):
+        ops = []
+        nobj = 0
+        for _ in range(1 + rng.below(20)):
+            r = rng.below(100)
+            if r < 40 or nobj == 0:
+                ops.append("%s:%d:%s" % (rng.choice("omt"), rng.below(3), hexs(rng.choice(names))))
+                nobj += 1
+            elif r < 60:
+                ops.append("sh:%d:%s" % (rng.below(nobj + 1), hexs(rng.choice(["x", "y", "z", "", "xy", "-"]))))
+            elif r < 70:
+                ops.append("en:%d:%s" % (rng.below(nobj + 1), hexs(rng.choice(["NVD_E1", "NVD_E2", ""]))))
+            elif r < 75:
+                ops.append("mv:%d:%s" % (rng.below(nobj + 1), hexs(rng.choice(["M", ""]))))
+            elif r < 85:
+                ops.append("move")
+            elif r < 90:
+                ops.append("grp:%d" % rng.below(3))
+            else:
+                ops.append("probe:" + hexl(rng.choice(PROBES + [["--no-a"], ["--c", "1", "-z"]])))
+        ops.append("probe:" + hexl(rng.choice(PROBES)))
+        out.append(dcase(ops))
+    return out
+
+
+C13 = Prop("C13", "opt", ["NitroVerif.Props.C13"], gen_c13,
+           rule="all declaration histories of depth <=3 over a 30-call alphabet (option/multi_option/toggle on the default "
+                "group and a named group with 2 names, short_name with 4 values incl. empty and two characters, env, metavar "
+                "incl. empty, moving the parser object, requesting a group), each followed by a probe parse; seeded random "
+                "histories up to 20 calls over 4 names (incl. no-a) and 3 groups with interleaved moves and probes; built with "
+                "ASan detect_stack_use_after_return (the moved parser is heap-allocated, a dangling back-reference is a "
+                "use-after-free). Compared: exception type of every call, identity of the returned object (creation index), "
+                "outcome and values of every probe. Non-trivial: at least 2 calls.",
+           search=SRCH(gen_c13), theorem_hint="NitroVerif.Props.C13.*",
+           level_text="Lean 4 invariant over all declaration histories: long names pairwise distinct across groups and kinds, "
+                      "short names one character, same declaration returns the same object, any other re-declaration is a "
+                      "developer error that changes nothing, a set short name cannot be changed, moving the parser is neutral, "
+                      "a shared letter makes every parse a developer error. Object identity and lifetime across the move are "
+                      "C++ runtime matters observed by the harness under ASan.",
+           technique="Lean 4 proof (invariant by induction over declaration histories) + differential correspondence under ASan",
+           **COMMON)
